@@ -120,12 +120,7 @@ def run(ctx):
             data = c01.PREFIX[:off] + enc + c01.SUFFIX
             u = c01.impl_unmarshal(sig, data, off, le, fds)
             ctx.impl_trace()
-            ok = u[0] == 'ok' and u[1] == len(enc)
-            if ok:
-                try:
-                    ok = c01.tree(u[2]) == c01.tree(expected)
-                except ValueError:
-                    ok = False
+            ok = u[0] == 'ok' and u[1] == len(enc) and c01.py_equal(expected, u[2])
             if not ok:
                 ctx.violation(decode_key(u, enc), 'unmarshal of a spec-conformant encoding does not return the value',
                               inp={'sig': sig, 'data': data.hex(), 'off': off, 'le': le, 'fds': vc.to_line(fds)},
@@ -234,7 +229,7 @@ def replay(ctx, data):
         idx_fds = list(fds)
         for t, s in zip(tys, rsv):
             want.append(_resolve(t, gv.expected_decoded(t, s), s, idx_fds))
-        ok = u[0] == 'ok' and u[1] == rn and c01.tree(u[2]) == c01.tree(want)
+        ok = u[0] == 'ok' and u[1] == rn and c01.py_equal(want, u[2])
         if not ok:
             ctx.violation(decode_key(u, b'x' * rn), 'unmarshal of a spec-conformant encoding does not return the value',
                           inp=inp, observed=c01.canon_unmarshal(u), expected='ok %d %s' % (rn, vc.to_line(want)))
